@@ -17,6 +17,7 @@ if [ -n "$VP_RUN_REPO" ]; then
 fi
 git -C $R diff --quiet || { echo "$R not clean"; exit 2; }
 L=$(mktemp -d /tmp/seeded-logs.XXXX)
+export VERIF_EVIDENCE_DIR=$L/evidence   # evidence of runs against a changed tree is not evidence about /repo
 MISSED=0
 for d in $V/seeded/*/; do
   name=$(basename $d)
